@@ -71,9 +71,9 @@ def _run(name, f):
         r = [LA.r_nth(f)[0]]
     elif name == "flatseq":
         r = [FL.r_flatseq(f)[0]]
-    elif name in ("copyshape", "flipshape", "conv", "intoiter", "sortkey", "fillshape", "drainlit"):
+    elif name in ("copyshape", "flipshape", "conv", "intoiter", "sortkey", "fillshape", "drainlit", "lockstep"):
         r = [{"copyshape": MI.r_copyshape, "flipshape": MI.r_flipshape, "conv": MI.r_conv, "intoiter": MI.r_intoiter,
-              "sortkey": MI.r_sortkey, "fillshape": MI.r_fill, "drainlit": MI.r_drainlit}[name](f)[0]]
+              "sortkey": MI.r_sortkey, "fillshape": MI.r_fill, "drainlit": MI.r_drainlit, "lockstep": MI.r_lockstep}[name](f)[0]]
     elif name == "rawbounds":
         r = [RB.r_rawbounds(f)[0]]
     elif name == "witness":
@@ -150,9 +150,9 @@ ROWCUR = r"^(Rows|RowsMut) as "
 COLCUR = r"^(Col|ColMut) as "
 SWAPS = r"(swap|row_pair_mut|fill)"
 
-prop("C01", [sel("encaps"), sel("witness", fn=r"^(W1|W2|W3|W4|W6|W7|W9|<rule>|<witness>)"), sel("zero", fn=r"^(TooDee|DrainCol|DropGuard| as Drop)"), sel("zero", fn=r"^TooDee"), sel("shape"), sel("deleg", fn=r"TooDee::(push|pop)")],
-     "Shape invariant of the owned array, structural clauses: (R-ENCAPS) the three fields are private to module toodee, no exported signature / impl hands out `&mut Vec`, so only the enumerated shape writers can change (len, num_rows, num_cols) - backed by compile_fail witnesses with compiling twins (assigning a field, building the struct or a cursor from parts, AsMut<Vec>, observing the array while a drain / mutable cursor is alive must not type-check); (R-ZERO) num_rows==0 <=> num_cols==0 in every abstract state at every TooDee construction site and at every return of a dimension writer; (R-UNWIND/R-LEAK/R-LEAK-DRAIN/R-HIDE) at every point where control can leave a writer (panic in caller code or a rejected call, leak of the returned drain, return) the triple is untouched, all-zero or in product form; (R-DELEG) push/pop delegate to insert/remove with the dimension as index.",
-     declined=["that the length written by insert_row/insert_col/remove_row on the success path equals the new product (loop/pointer arithmetic, DESIGN 2.4)", "cells equal those of a rows-of-cells model (runtime values)"])
+prop("C01", [sel("rawbounds"), sel("encaps"), sel("witness", fn=r"^(W1|W2|W3|W4|W6|W7|W9|<rule>|<witness>)"), sel("zero", fn=r"^(TooDee|DrainCol|DropGuard| as Drop)"), sel("zero", fn=r"^TooDee"), sel("shape"), sel("deleg", fn=r"TooDee::(push|pop)")],
+     "Shape invariant of the owned array, structural clauses: (R-ENCAPS) the three fields are private to module toodee, no exported signature / impl hands out `&mut Vec`, so only the enumerated shape writers can change (len, num_rows, num_cols) - backed by compile_fail witnesses with compiling twins (assigning a field, building the struct or a cursor from parts, AsMut<Vec>, observing the array while a drain / mutable cursor is alive must not type-check); (R-ZERO) num_rows==0 <=> num_cols==0 in every abstract state at every TooDee construction site and at every return of a dimension writer; (R-UNWIND/R-LEAK/R-LEAK-DRAIN/R-HIDE) at every point where control can leave a writer (panic in caller code or a rejected call, leak of the returned drain, return) the triple is untouched, all-zero or in product form; (R-DELEG) push/pop delegate to insert/remove with the dimension as index; (R-RAWBOUNDS, a necessary condition of the cells clause) the raw block moves of insert/remove stay inside the buffer and consecutive moves that shift cells the same way proceed in the only order that does not read already-overwritten cells (back to front when shifting right, front to back when shifting left).",
+     declined=["that the length written by insert_row/insert_col/remove_row on the success path equals the new product (loop/pointer arithmetic, DESIGN 2.4)", "cells equal those of a rows-of-cells model (runtime values) beyond the move-order clause"])
 prop("C02", [sel("layout", fn=r"(Index|IndexMut|::col$|::col_mut$|get_unchecked|::view|::view_mut|from_toodee|TooDeeView(Mut)?::new|<rule>)"), sel("shape", rules=["R-UNWIND", "R-LEAK", "R-LEAK-DRAIN", "R-STALE"]), sel("zero", fn=r"^(TooDee|DrainCol|DropGuard)"), sel("guard", fn=r"(Index|IndexMut|::col$|::col_mut$| as TooDeeOps(Mut)?::col|get_col_params)"), sel("guard", rules=["R-ARITH"], fn=COLCUR), sel("units", fn=r"(Index|::col|get_unchecked|get_col_params|Col as|ColMut as)")],
      "Checked access, structural clauses: (R-GUARD) every caller index of Index/IndexMut (row and coordinate forms) and col()/col_mut() on the three receivers is compared strictly with the dimension of its own unit by a guard whose failing edge panics and whose surviving edge dominates every arithmetic use and unchecked access; (R-ARITH) Col/ColMut indexing forms idx*(1+skip) only with checked arithmetic and reaches the cell through a checked slice index (no wrap for huge indices with overflow checks off); (R-UNITS) rows are never compared/multiplied as columns. (R-LAYOUT) every unchecked access of the accessors (Index/IndexMut, col/col_mut, the four get_unchecked*) on the three receivers has, as a canonical polynomial after composing nested slices, the address row*S+col (or the row / column range forms) with S the object's own stride, and the matching lemma's hypotheses (row < R, col < C) are path facts - hence all accessors denote one and the same cell; the view constructors hand every view the slice, dimensions and stride these formulas assume (R-LAYOUT literals), and - because every accessor is an unchecked access justified by the shape invariant - the invariant's own exit-point rules (R-UNWIND, R-LEAK, R-LEAK-DRAIN, R-STALE, R-ZERO of C01) are part of this check as its premise.",
      declined=["the pen-and-paper lemmas L-POS/L-ROW/L-COL* themselves (trusted base)"])
@@ -190,9 +190,9 @@ prop("C13", [sel("fillshape"), sel("nth"), sel("layout", fn=r"(swap|<rule>)"), s
 prop("C14", [sel("copyshape"), sel("nonzero", fn=r"(copy_|clone_from|CopyOps|<rule>)"), sel("guard", fn=r"copy_within"), sel("units", fn=r"(copy_|clone_from)"), sel("dup", fn=r"(copy_|clone_from|CopyOps)")],
      "clauses only: guard/unit clauses of C14 - (R-COPYSHAPE) each of the eight copy functions compares the sizes with a diverging guard that dominates every write (or is one std slice copy of the whole buffer, which checks lengths) and transfers rows destination <- source from zip(rows_mut(), source rows); (R-GUARD) the six coordinates of copy_within are bounded against the dimension of their unit (directly or through the ordered source rectangle); (R-ARITH) no `+` on a caller coordinate before its guard; (R-UNITS) row offsets index rows, column offsets slice rows; (R-DUP) bitwise copies only under T: Copy via slice methods; (R-NONZERO) no chunks*/division sees a possibly-zero column count (empty destinations are valid shapes).",
      declined=["overlap direction of copy_within and row-major equality of the result (iteration order vs values)"])
-prop("C15", [sel("flipshape"), sel("layout", fn=r"get_unchecked_row_mut|<rule>"), sel("guard", fn=r"translate"), sel("units", fn=r"(translate|flip)"), sel("dup", fn=r"(Translate|translate|flip)")],
-     "clauses only: guard and permutation clauses of C15 - (R-FLIPSHAPE) flip_rows swaps next() with next_back() of one rows_mut() cursor, flip_cols reverses every row; mid <= (num_cols, num_rows) with the right units; translate.rs moves elements only with swap_with_slice / rotate_left / reverse on rows obtained from the trait (no element lost or duplicated); the unchecked row getters it relies on address row*stride .. +num_cols on every implementor (R-LAYOUT L-ROW); no cross-axis comparison of a mid-point with the other dimension (R-UNITS u1, also for equalities).",
-     declined=["the position formula new[(c,r)] == old[((c+mc)%C,(r+mr)%R)] and index validity inside the cycle-leader loop (number theory, DESIGN 2.2)"])
+prop("C15", [sel("flipshape"), sel("lockstep"), sel("layout", fn=r"get_unchecked_row_mut|<rule>"), sel("guard", fn=r"translate"), sel("units", fn=r"(translate|flip)"), sel("dup", fn=r"(Translate|translate|flip)")],
+     "clauses only: guard and permutation clauses of C15 - (R-FLIPSHAPE) flip_rows swaps next() with next_back() of one rows_mut() cursor, flip_cols reverses every row; mid <= (num_cols, num_rows) with the right units; translate.rs moves elements only with swap_with_slice / rotate_left / reverse on rows obtained from the trait (no element lost or duplicated); the unchecked row getters it relies on address row*stride .. +num_cols on every implementor (R-LAYOUT L-ROW); no cross-axis comparison of a mid-point with the other dimension (R-UNITS u1, also for equalities); (R-LOCKSTEP) in the cycle-leader loop of translate_with_wrap the row cursor and the running column offset are induction variables of one loop that are advanced on exactly the same iterations and re-initialised at the same loop depth (a necessary condition of 'row k of a cycle is rotated by k*col_mid').",
+     declined=["the position formula new[(c,r)] == old[((c+mc)%C,(r+mr)%R)] and index validity inside the cycle-leader loop (number theory, DESIGN 2.2): R-LOCKSTEP decides only that the two cursors move together, not that the walk visits every row once"])
 prop("C16", [sel("sortkey", fn=r"sort_.*row"), sel("deleg", fn=r"sort_.*row"), sel("sortshape", fn=r"sort_.*row"), sel("guard", fn=r"sort_.*row"), sel("units", fn=r"sort_.*row"), sel("dup", fn=r"sort_.*row")],
      "clauses only: sort-by-row family - (R-DELEG) each wrapper reaches the core of its own axis and stability with its index forwarded; (R-SORTSHAPE) s1 side sort of matching stability, s3 the key line is self[row] (resp. self.col(col)) of the given index, s2 comparator/key argument order, s4 the swap trace is applied to every row, s5 user code only before the first write; (R-GUARD) row < num_rows; (R-DUP) only ptr::swap moves elements.",
      declined=["build_swap_trace turning the permutation into transpositions; sortedness/stability as observed (std's contract given s1-s2)"])
@@ -202,9 +202,9 @@ prop("C17", [sel("layout", fn=r"swap_rows|<rule>"), sel("nth", fn=r"swap_rows"),
 prop("C18", [sel("serde")],
      "Serialisation, structural clauses: (t1) writer and reader tables agree - struct field names (derived Serialize), the literals of both view serialisers paired with the getter of the same name and cells(), the reader's key literals, missing_field literals and FIELDS are the same set; each key's value is stored in the slot of the same name and handed to the constructor in parameter order; (t2) map keys are requested as an owned-capable type, so every transport (str, bytes, reader, value tree, escaped keys) can supply them; (t4) the reader cannot panic on a document the writer produced (no division, force-unwrap, allocation-size or bounds panic in the reader's own code - this includes element types of size zero).",
      declined=["equality of round-tripped cells (element Serialize/Deserialize are caller code)"])
-prop("C19", [sel("serde"), sel("zero", fn=r"visit_map|Deserialize")],
+prop("C19", [sel("serde"), sel("zero", fn=r"visit_|Deserialize|Visitor|Seed|serde::")],
      "Deserialisation, structural clauses: (t4) the reader's own code has no panicking callee or bounds assertion, and each panic condition of the asserting constructor it calls - K_OVF, K_LEN (classified from the constructor's MIR), K_ZERO (R-ZERO at the call) - is discharged by a dominating guard whose failing edge returns Err; (t1) missing/unknown fields are errors; the constructor receives the parsed values in order.",
      declined=["panics inside serde / serde_json / the element type's Deserialize"])
-prop("C20", [sel("conv"), sel("layout", fn=r"TooDeeView(Mut)?::new|<rule>"), sel("zero", fn=CTORS), sel("deleg", fn=r"from_box"), sel("units", fn=CTORS)],
+prop("C20", [sel("conv"), sel("layout", fn=r"TooDeeView(Mut)?::new|<rule>"), sel("zero", fn=CTORS), sel("deleg", fn=r"from_box"), sel("units", fn=CTORS), sel("units", desc=r"(from_vec|from_box|new|init)\(")],
      "Constructors, structural clauses: (R-ZERO) new/init/from_vec/TooDeeView::new/TooDeeViewMut::new and every other construction site only build arrays whose dimensions are both zero or both non-zero; (R-UNITS u5) fields are initialised from parameters of their own unit (no exchanged dimensions, also in From<view>); (R-DELEG) from_box forwards to from_vec in order; (R-CONV) into_iter / From<TooDee> for Vec and Box move the Vec whole, From<view> x2 append view.rows() front to back and take both dimensions from the view's own getters, Clone/PartialEq/Hash are compiler-derived; (R-LAYOUT) the slice constructors of the views keep exactly the prefix num_cols*num_rows of the given buffer (L-PREFIX, exact extent).",
      declined=["row-major equality of contents as values; Hash/Eq agreement is the derive's contract"])
